@@ -173,6 +173,25 @@ def run_record_arrays(ctx, quick):
     m.close()
 
 
+def run_enum_bases(ctx, quick):
+    """enums / flags over every integer base, the base spelled directly, through aliases and through an imported alias: all four endpoints must
+    agree on the width and signedness of the encoded value"""
+    pkg = corpus.enum_base_package()
+    m = rt.prepare_model(ctx, "enumbases", pkg, ["plain"])
+    if m is None:
+        raise Inconclusive("enum-base model did not build")
+    c = m.codec
+    cpp, py = rt.CppEndpoint(m, "plain"), rt.PyEndpoint(m)
+    for proto in pkg.protocols():
+        for k in range(3 if quick else 8):
+            vals = values.ValueGen(c, rng("C03eb", proto.name, k), json_safe=True).steps(proto)
+            ctx.case(("enum-bases", proto.name, k))
+            for hops in ([(py, "bin"), (cpp, "bin")], [(cpp, "bin"), (py, "bin")], [(py, "ndjson"), (cpp, "bin")], [(cpp, "ndjson"), (py, "bin")]):
+                chain(ctx, m, proto, vals, "bin", hops, "enum bases %s set %d" % (proto.name, k), {"enum_bases": True, "set": k})
+                ctx.count("enum-bases.chains")
+    m.close()
+
+
 def run_multiarray(ctx):
     """records with several arrays whose items straddle the reader's 64 KiB refills: an array decoded before a refill must keep its values
     (it must not be a view of the reader's buffer)"""
@@ -309,6 +328,7 @@ def run(ctx):
     run_nulltag(ctx)
     run_multiarray(ctx)
     run_record_arrays(ctx, quick)
+    run_enum_bases(ctx, quick)
     run_union_matrix(ctx, quick)
     run_sweep(ctx, range(-12, 3) if not quick else range(-11, 2))
     run_big(ctx)
